@@ -28,6 +28,9 @@ pub fn run(ctx: &Ctx, fmt: Fmt) -> i32 {
         Ok(())
     });
     rep.absorb(r);
+    if fmt == Fmt::F32 && rep.violations.is_empty() {
+        f32_boundary_sweep(ctx, &mut rep);
+    }
     rep.extra.insert("configurations".into(), serde_json::json!(cfgs.iter().map(|c| c.name).collect::<Vec<_>>()));
     rep.extra.insert("format".into(), serde_json::json!(fmt.name()));
     rep.extra.insert("max_digits_generated".into(), serde_json::json!(lim.huge));
@@ -37,6 +40,83 @@ pub fn run(ctx: &Ctx, fmt: Fmt) -> i32 {
     require_counter(&mut rep, "path[default]:slow-positive", 100);
     let _ = Tier::Quick;
     finish(ctx, rep)
+}
+
+/// The finite set of f32 rounding boundaries (2^31 - 2^23 midpoints between
+/// adjacent non-negative values, plus the overflow threshold): each boundary H
+/// is parsed as H (tie -> even), H||1 (-> upper neighbour) and (H - 1 unit in
+/// the last place)||9 (-> lower neighbour); expectation by construction from
+/// the exact expansion of H (own Nat), cross-checked by the oracle on a sample.
+/// Quick: a seed-chosen residue class; thorough: all of them.
+fn f32_boundary_sweep(ctx: &Ctx, rep: &mut Report) {
+    use crate::oracle::{self, Verdict};
+    use crate::runner::{run_sweep, Failure};
+    let total = Fmt::F32.inf_bits(); // x in [0, inf): boundary above x
+    let stride: u64 = match ctx.tier {
+        Tier::Quick => 512,
+        Tier::Thorough => 1,
+    };
+    let off = ctx.seed % stride;
+    let count = (total - off + stride - 1) / stride;
+    let cfg_all = all_cfgs();
+    let r = run_sweep(count, ctx.threads, |i, stats| {
+        let x = off + i * stride;
+        let h = oracle::hi(Fmt::F32, x);
+        let mut digits: Vec<u8> = h.digits.iter().map(|d| d + b'0').collect();
+        // an integer-valued boundary: restore its trailing zeros so that appended digits are fractional
+        while (digits.len() as i64) < h.point {
+            digits.push(b'0');
+        }
+        let e10 = h.point - digits.len() as i64;
+        let tie_even = if x & 1 == 0 { x } else { x + 1 };
+        // three inputs, integer-only and (for variety) fraction-only layout alternating
+        let mut up = digits.clone();
+        up.push(b'1');
+        let mut down = digits.clone();
+        let mut j = down.len() - 1;
+        while down[j] == b'0' {
+            down[j] = b'9';
+            j -= 1;
+        }
+        down[j] -= 1;
+        down.push(b'9');
+        let lz = down.iter().take_while(|&&c| c == b'0').count();
+        let down_lz = lz;
+        let cases: [(&[u8], i64, u64, &str); 3] = [(&digits, e10, tie_even, "tie"), (&up, e10 - 1, x + 1, "tie+digit"), (&down[down_lz..], e10 - 1, x, "tie-1ulp+9")];
+        let cfgs: &[&'static crate::cfgs::Cfg] = if i % 16 == 0 { &cfg_all } else { &cfg_all[..2] };
+        for (d, e, want, kind) in cases {
+            let frac_layout = (i / 3) % 2 == 1 && *d.last().unwrap() != b'0';
+            let (int, frac, exp): (&[u8], &[u8], i32) = if frac_layout { (&[], d, (e + d.len() as i64) as i32) } else { (d, &[], e as i32) };
+            for cfg in cfgs {
+                let got = crate::runner::catch(|| cfg.parse(Fmt::F32, int, frac, exp));
+                if got != Ok(want) {
+                    return Err(Failure::violation(
+                        format!("f32 boundary above {}: {} input parsed as {:?} in config {}, expected {}", Fmt::F32.hex(x), kind, got.as_ref().map(|b| Fmt::F32.hex(*b)), cfg.name, Fmt::F32.hex(want)),
+                        format!("misround:{}:f32:boundary-{}", if cfg.compact { "compact" } else { "lemire" }, kind),
+                        super::common::raw_detail(Fmt::F32, cfg.name, int, frac, exp, serde_json::json!({"boundary_above": Fmt::F32.hex(x), "kind": kind, "expected_bits": Fmt::F32.hex(want)})),
+                    ));
+                }
+            }
+            if i % 4096 == 0 && oracle::judge(Fmt::F32, want, int, frac, exp as i64) != Verdict::Correct {
+                return Err(Failure::harness("boundary sweep: by-construction expectation disagrees with the oracle".into(), serde_json::json!({"x": x, "kind": kind})));
+            }
+        }
+        if i % 1_000_003 == 0 {
+            stats.sample("f32 boundary sweep", || serde_json::json!({"boundary_above_bits": Fmt::F32.hex(x), "digits": digits.len(), "exponent10": e10}));
+        }
+        Ok(())
+    });
+    let n = r.stats.evaluations;
+    rep.absorb(r);
+    rep.stats.add("f32-boundaries-swept", n);
+    rep.extra.insert(
+        "f32_boundary_sweep".into(),
+        serde_json::json!({"boundaries_total": total, "stride": stride, "offset": off, "swept": n, "inputs_per_boundary": 3, "complete": stride == 1,
+                           "configs": "default+compact for every boundary, all 8 for every 16th"}),
+    );
+    // every swept boundary is a distinct non-trivial case by construction (enumeration index)
+    let base = rep.stats.distinct_nontrivial();
+    rep.extra.insert("distinct_nontrivial_override".into(), serde_json::json!(base + n));
 }
 
 pub fn replay(v: &serde_json::Value) -> Result<bool, String> {
